@@ -3,7 +3,7 @@
       io/nexus/nexus_lexer.go   [Scanner.Scan/scanWhitespace/scanIdent]
       io/nexus/nexus_parser.go  [Parse, parseTaxa, parseTrees, parseTranslationTable, parseData,
                                  parseUnsupportedCommand/Key/Block, consumeComment]
-                                (state of /repo after the fixes fcf4ced and 4b7059e)
+                                (state of /repo after the fixes fcf4ced, 4b7059e and fd2e4c0)
       io/nexus/nexus.go         [WriteNexus, FirstTree, IterateTrees]
       tree/tree.go              [Tree.Nexus, Tree.Rename (+ NewNodeIndex, UpdateTipIndex)]
       io/utils/readtrees.go     [ReadTreeReader / ReadMultiTrees, case FORMAT_NEXUS]
@@ -671,12 +671,13 @@ Definition rename_tree (tbl : list (string * string)) (t : utree) : utree + stri
 Record nexus_st : Type := mkNS {
   ns_taxantax : Z;                                   (* 0 before any TAXA block *)
   ns_taxlabels : option (list string);               (* nil map before any TAXA block *)
-  ns_trees : option (list string * list string);     (* treenames, treestrings *)
+  ns_trees : option (list string * list string);     (* treenames, treestrings: of all TREES blocks so far, in file order *)
   ns_table : option (list (string * string));        (* p.translationTable *)
   ns_data : option data_st;                          (* names/sequences != nil *)
-  ns_missing : ascii; ns_gap : ascii
+  ns_missing : ascii; ns_gap : ascii;
+  ns_tabs : list (option (list (string * string)))   (* treetables: per tree, p.translationTable at the end of its block *)
 }.
-Definition nexus0 : nexus_st := mkNS 0%Z None None None None "*"%char "-"%char.
+Definition nexus0 : nexus_st := mkNS 0%Z None None None None "*"%char "-"%char [].
 
 (** the content of a parsed file as far as trees are concerned *)
 Record nexus_doc : Type := mkDoc { doc_trees : list (string * utree); doc_has_align : bool }.
@@ -733,14 +734,16 @@ Section Parse.
         end
       end.
 
-  (** the tree part of Parse *)
-  Fixpoint build_trees (st : nexus_st) (names strs : list string) : list (string * utree) + string :=
-    match names, strs with
-    | n :: nr, s :: sr =>
+  (** the tree part of Parse (after the fix fd2e4c0: tree i is renamed with treetables[i], the table in force at the end
+      of the TREES block it was read in) *)
+  Fixpoint build_trees (st : nexus_st) (names strs : list string) (tabs : list (option (list (string * string))))
+    : list (string * utree) + string :=
+    match names, strs, tabs with
+    | n :: nr, s :: sr, tb :: tr =>
       match nparse (s ++ ";") with
       | inr e => inr e
       | inl t =>
-        match (match ns_table st with Some tbl => rename_tree tbl t | None => inl t end) with
+        match (match tb with Some tbl => rename_tree tbl t | None => inl t end) with
         | inr e => inr e
         | inl t' =>
           let bad : option string :=
@@ -755,14 +758,14 @@ Section Parse.
               end in
           match bad with
           | Some e => inr e
-          | None => match build_trees st nr sr with
+          | None => match build_trees st nr sr tr with
                     | inl l => inl ((n, t') :: l)
                     | inr e => inr e
                     end
           end
         end
       end
-    | _, _ => inl []
+    | _, _, _ => inl []
     end.
 
   (** the code of Parse after its main loop *)
@@ -779,7 +782,7 @@ Section Parse.
         match ns_trees st with
         | None => POk (mkDoc [] (match ns_data st with Some _ => true | None => false end))
         | Some (names, strs) =>
-          match build_trees st names strs with
+          match build_trees st names strs (ns_tabs st) with
           | inr e => PErr e
           | inl l => POk (mkDoc l (match ns_data st with Some _ => true | None => false end))
           end
@@ -821,7 +824,7 @@ Section Parse.
                 match err with
                 | Some e => PErr e
                 | None => main_loop f (mkNS ntax (Some labels) (ns_trees st) (ns_table st) (ns_data st)
-                                            (ns_missing st) (ns_gap st)) r4
+                                            (ns_missing st) (ns_gap st) (ns_tabs st)) r4
                 end
               | Panic => PPanic
               | OutOfFuel => POutOfFuel
@@ -831,9 +834,15 @@ Section Parse.
               | Ret ts err r4 =>
                 match err with
                 | Some e => PErr e
-                | None => main_loop f (mkNS (ns_taxantax st) (ns_taxlabels st)
-                                            (Some (tnames ts, tstrings ts)) (ttable ts) (ns_data st)
-                                            (ns_missing st) (ns_gap st)) r4
+                | None =>
+                  (* the trees of this block are appended to those of the earlier TREES blocks; each of them is
+                     recorded with p.translationTable as it is now (a block without TRANSLATE keeps the table of an
+                     earlier block) *)
+                  let '(on, os) := match ns_trees st with Some x => x | None => ([], []) end in
+                  main_loop f (mkNS (ns_taxantax st) (ns_taxlabels st)
+                                    (Some (on ++ tnames ts, os ++ tstrings ts)%list) (ttable ts) (ns_data st)
+                                    (ns_missing st) (ns_gap st)
+                                    (ns_tabs st ++ map (fun _ => ttable ts) (tnames ts))%list) r4
                 end
               | Panic => PPanic
               | OutOfFuel => POutOfFuel
@@ -844,7 +853,7 @@ Section Parse.
                 match err with
                 | Some e => PErr e
                 | None => main_loop f (mkNS (ns_taxantax st) (ns_taxlabels st) (ns_trees st) (ns_table st)
-                                            (Some d) (dmissing d) (dgap d)) r4
+                                            (Some d) (dmissing d) (dgap d) (ns_tabs st)) r4
                 end
               | Panic => PPanic
               | OutOfFuel => POutOfFuel
